@@ -139,6 +139,13 @@ def run_check(pid, P, tier, seed, replay, wd, t0):
         scns = [payload["scenario"]] if "scenario" in payload else payload.get("scenarios", [])
     else:
         scns = props.corpus(pid) + P["generate"](rng, tier)
+        # a third of the generated scenarios first issue requests that must be refused (unknown
+        # endpoint in either position, loop, non-positive multiplicity) against the graph object
+        # they then analyse: a refused request leaves nothing behind that an analysis could see
+        prng = random.Random(f"{pid}:poke:{seed}")
+        for s in scns:
+            if isinstance(s, dict) and "edges" in s and "poke" not in s and prng.random() < 0.33:
+                s["poke"] = prng.randrange(1 << 30)
     for s in scns:
         s.setdefault("_cmp", None)
     recs = run_sides(pid, scns, wd)
